@@ -4,10 +4,12 @@ correspondence: Feature(attributes=dict, dialect=D) printed and re-parsed with D
 _split_keyvals on arbitrary strings with inferred and supplied dialects - against the Lean model.
 oracle (real code only): the printed feature is one line with 9 (+extra) columns; re-parsing with the same
 dialect returns the same columns and mapping (GFF3-style: arbitrary Unicode values; GTF-style: values free of
-; " , and control characters); no exception and lists of strings for every string.
+; " , and control characters); no exception and lists of strings for every string, through parser._split_keyvals
+and through feature_from_line (the string as column 9 of a line).
 """
 import copy
 import itertools
+import json as _stdjson
 import unicodedata
 
 import common
@@ -96,6 +98,60 @@ def oracle_roundtrip(mapping, d, cols, extra):
     return None, line
 
 
+# attribute columns whose whole text is a JSON document: they are attribute text like any other string
+JSONISH = ["1", " 1 ", "-1", "0.5", "1e5", "12", '"a"', ' "a" ', '"gene"', '""', "null", "true", "false", "[1,2]", "[]", "[ ]",
+           '["a"]', '[["a"]]', "{}", "{ }", '{"ID":1}', '{"ID":"g1"}', '{"ID":["g1"]}', '{"a":null}', '{"a":[1]}',
+           '{"ID":["g1"],"Name":["n"]}', "NaN", "Infinity", "-Infinity", "-0", "1.0", "[null]", '"a;b=c"', '"ID=g1"',
+           '{"a":{"b":["c"]}}', "\ufeff1", '"\\u00e9"', "nul", "tru", "[1,2", '{"ID":1']
+LINE_PREFIX = "chr1\tsrc\tgene\t1\t10\t.\t+\t.\t"
+
+
+def stdjson_dumps(x):
+    return _stdjson.dumps(x)
+
+
+def lists_of_strings(a):
+    """None when `a` (an Attributes) maps strings to lists of strings, else the offending item"""
+    for k, v in a._d.items():
+        if not isinstance(k, str) or not isinstance(v, list) or any(not isinstance(x, str) for x in v):
+            return {k: v}
+    return None
+
+
+def totality_split(s, d):
+    """the totality clause on parser._split_keyvals: why it fails | None"""
+    from gffutils import parser
+    try:
+        a, dd = parser._split_keyvals(s, dialect=copy.deepcopy(d))
+    except Exception as ex:
+        return "parsing raised %r" % ex
+    bad = lists_of_strings(a)
+    return None if bad is None else "parser returned a value that is not a list of strings: %r" % (bad,)
+
+
+def totality_line(s, d):
+    """the totality clause on the public parsing path: feature_from_line of a nine-column line whose attribute column
+    is `s` (s holds no tab: a tab ends the column).  why it fails | None"""
+    from gffutils.feature import feature_from_line
+    try:
+        f = feature_from_line(LINE_PREFIX + s, dialect=copy.deepcopy(d))
+        a = f.attributes
+        if not hasattr(a, "_d"):
+            return "feature_from_line: Feature.attributes is a %s, not an Attributes mapping" % type(a).__name__
+    except Exception as ex:
+        return "feature_from_line raised %r" % ex
+    bad = lists_of_strings(a)
+    return None if bad is None else "feature_from_line yields a value that is not a list of strings: %r" % (bad,)
+
+
+def safe_impl_line(line, dialect, strict, keep):
+    """pyside.impl_line, also when the parsed Feature cannot be rendered in the protocol (values that are not lists)"""
+    try:
+        return pyside.impl_line(line, dialect, strict, keep)
+    except Exception as ex:
+        return "unrenderable " + type(ex).__name__
+
+
 def run(ctx):
     from gffutils import parser
     import urllib.parse
@@ -105,8 +161,9 @@ def run(ctx):
                 "characters, quotes, percent sequences, arbitrary Unicode) x 36 dialect dictionaries (separator x "
                 "trailing x repeated x quoted x {gff3 '=', gff3 ' ', gtf ' '}), printed and re-parsed with the same "
                 "dialect; quote/unquote on random strings and all 1-2 byte escapes; every string over the 9-letter "
-                "structural alphabet up to a length bound plus random strings through the inferring and the "
-                "supplied-dialect parser. non-trivial = distinct (mapping, dialect) whose values contain a reserved, "
+                "structural alphabet up to a length bound plus random strings and strings that are JSON documents "
+                "(1, \"a\", null, [1,2], {\"ID\":1} ...) through the inferring and the supplied-dialect parser and, as the "
+                "attribute column of a nine-column line, through feature_from_line. non-trivial = distinct (mapping, dialect) whose values contain a reserved, "
                 "control or non-ASCII character")
     res.constants_checked = pc.parser_constants(ctx, res)
     ds = dialects()
@@ -174,7 +231,7 @@ def run(ctx):
                 a = line.split("\t")[8]
                 cmds.append(pyside.cmd_split(a, d)); exp.append(pyside.impl_split(a, d))
                 tags.append(("_split_keyvals(supplied dialect)", repr((a, d))))
-                cmds.append(pyside.cmd_line(line, d, True, False)); exp.append(pyside.impl_line(line, d, True, False))
+                cmds.append(pyside.cmd_line(line, d, True, False)); exp.append(safe_impl_line(line, d, True, False))
                 tags.append(("feature_from_line(supplied dialect)", repr((line, d))))
 
     # quote / unquote ------------------------------------------------------------------------------
@@ -215,37 +272,51 @@ def run(ctx):
         tags.append(("str.splitlines table", hex(lo)))
 
     # totality: every string, inferring and supplied ---------------------------------------------------
+    # judged on parser._split_keyvals AND on the public path, feature_from_line of a nine-column line with that string
+    # as its attribute column (strings with a tab excepted: a tab ends the column)
+    def totality(s, d, comp, model_line=True, line=True):
+        res.evaluations += 1
+        why = totality_split(s, d)
+        if why:
+            res.oracle_failures.append((why, {"attribute_column": s, "dialect": d, "via": "_split_keyvals"}))
+        cmds.append(pyside.cmd_split(s, d)); exp.append(pyside.impl_split(s, d))
+        tags.append((comp, repr((s, d))))
+        if "\t" in s or not line:
+            return
+        res.evaluations += 1
+        why = totality_line(s, d)
+        if why:
+            res.oracle_failures.append((why, {"attribute_column": s, "dialect": d, "via": "feature_from_line"}))
+        if model_line:
+            cmds.append(pyside.cmd_line(LINE_PREFIX + s, d, True, False))
+            exp.append(safe_impl_line(LINE_PREFIX + s, d, True, False))
+            tags.append(("feature_from_line (any attribute column; %s)" % comp, repr((s, d))))
+
     maxlen = 5 if not ctx.thorough else 6
     some_ds = [None] + r.sample(ds, 5)
     nstr = 0
     for s in gen_spec.exhaustive_strings(';=," %a1 ', maxlen):
         nstr += 1
         for d in ([None] if (len(s) > 4 and nstr % 7) else some_ds):
-            res.evaluations += 1
-            try:
-                a, dd = parser._split_keyvals(s, dialect=copy.deepcopy(d))
-                bad = [v for v in a._d.values() if not isinstance(v, list) or any(not isinstance(x, str) for x in v)]
-                if bad:
-                    res.oracle_failures.append(("parser returned a value that is not a list of strings",
-                                                {"attribute_column": s, "dialect": d, "value": repr(bad[0])}))
-            except Exception as ex:
-                res.oracle_failures.append(("parsing raised %r" % ex, {"attribute_column": s, "dialect": d}))
-            cmds.append(pyside.cmd_split(s, d)); exp.append(pyside.impl_split(s, d))
-            tags.append(("_split_keyvals", repr((s, d))))
+            totality(s, d, "_split_keyvals", model_line=(len(s) <= 3 or (d is None and nstr % 8 == 0)),
+                     line=(len(s) <= 4 or nstr % 5 == 0 or ctx.thorough))
+    # attribute columns that are JSON documents, alone and with blanks / a separator around them
+    for s0 in JSONISH:
+        for s in (s0, " " + s0, s0 + " ", s0 + ";", s0 + "\n"):
+            for d in [None] + ds[::5] + r.sample(ds, 3):
+                res.count("jsonlike_attribute_column")
+                totality(s, d, "_split_keyvals (JSON-looking column)")
     alph = list(';=," %\t\n\rab1_ é中\x00\x1f\x85　') + ["%3B", "%C3%A9", "; ", " ; ", '""']
     for i in range(15000 if not ctx.thorough else 300000):
-        s = "".join(r.choice(alph) for _ in range(r.randrange(0, 20)))
+        if i % 10 == 3:
+            s = r.choice(JSONISH) if r.random() < 0.5 else \
+                stdjson_dumps(r.choice([r.randrange(-50, 1000), r.random(), [r.randrange(9)], {"ID": r.choice(["g", 1, ["g"]])},
+                                        r.choice("abc"), None, True]))
+            s = r.choice(["", " ", "\n"]) + s + r.choice(["", "", " ", ";", "\r\n"])
+        else:
+            s = "".join(r.choice(alph) for _ in range(r.randrange(0, 20)))
         d = r.choice([None, None] + ds)
-        res.evaluations += 1
-        try:
-            a, dd = parser._split_keyvals(s, dialect=copy.deepcopy(d))
-            if any(not isinstance(v, list) or any(not isinstance(x, str) for x in v) for v in a._d.values()):
-                res.oracle_failures.append(("parser returned a value that is not a list of strings",
-                                            {"attribute_column": s, "dialect": d}))
-        except Exception as ex:
-            res.oracle_failures.append(("parsing raised %r" % ex, {"attribute_column": s, "dialect": d}))
-        cmds.append(pyside.cmd_split(s, d)); exp.append(pyside.impl_split(s, d))
-        tags.append(("_split_keyvals", repr((s, d))))
+        totality(s, d, "_split_keyvals", model_line=(i % 4 == 0))
 
     # supplied dialects whose "multival separator" is not a comma: the parser splits values on "," whatever it says
     for i in range(600 if not ctx.thorough else 10000):
@@ -303,4 +374,15 @@ def replay(ctx, payload):
         res.evaluations = 1
         if why and not known_d14(i["dialect"], i["mapping"]):
             res.oracle_failures.append((why, i))
+    elif "attribute_column" in i:
+        s, d = i["attribute_column"], i.get("dialect")
+        res.evaluations = 1
+        for via, fn in (("_split_keyvals", totality_split), ("feature_from_line", totality_line)):
+            if via == "feature_from_line" and "\t" in s:
+                continue
+            why = fn(s, d)
+            print("replay: attribute column %r, dialect %s, through %s: %s (%s)"
+                  % (s, "inferred" if d is None else pyside.enc_dialect(d), via, why or "holds", common.repo_dir()))
+            if why and via == i.get("via", via):
+                res.oracle_failures.append((why, dict(i, via=via)))
     return res
